@@ -16,7 +16,7 @@ TOL = 3e-4  # values up to ~30; interpolation weights from float32 grid coordina
 
 
 def cfg(tier: str, emit: bool) -> str:
-    s = (f"SPECIFICATION Spec\nCONSTANTS\n  Sources <- {'QSources' if tier == 'quick' else 'TSources'}\n  TargetsOf <- QTargets\n"
+    s = (f"SPECIFICATION Spec\nCONSTANTS\n  Sources <- {'QSources' if tier == 'quick' else 'TSources2'}\n  TargetsOf <- {'QTargets' if tier == 'quick' else 'TTargets'}\n"
          f"  Pads <- AllPads\n  EmitCases = {'TRUE' if emit else 'FALSE'}\n")
     if not emit:
         s += "INVARIANT Laws\n"
